@@ -57,6 +57,15 @@ type Store struct {
 	rmKeys      []string
 	rm          map[string][]string
 	useUsername bool
+	oneTime     bool // hand out records that implement totp2fa.UserOneTime
+}
+
+// out wraps a record in the type the application's user implements
+func (s *Store) out(u *User) authboss.User {
+	if s.oneTime {
+		return UserOT{u}
+	}
+	return u
 }
 
 func newStore(be *Backend, useUsername bool) *Store {
@@ -77,7 +86,7 @@ func (s *Store) setRm(pid string, toks []string) {
 	s.rm[pid] = toks
 }
 
-func (s *Store) New(context.Context) authboss.User { return &User{useUsername: s.useUsername} }
+func (s *Store) New(context.Context) authboss.User { return s.out(&User{useUsername: s.useUsername}) }
 
 func (s *Store) Load(_ context.Context, key string) (authboss.User, error) {
 	if err := s.be.enter("load"); err != nil {
@@ -89,7 +98,7 @@ func (s *Store) Load(_ context.Context, key string) (authboss.User, error) {
 	if !ok {
 		return nil, authboss.ErrUserNotFound
 	}
-	return u.clone(), nil
+	return s.out(u.clone()), nil
 }
 
 func (s *Store) Save(_ context.Context, user authboss.User) error {
@@ -98,7 +107,7 @@ func (s *Store) Save(_ context.Context, user authboss.User) error {
 	}
 	s.mu.Lock()
 	defer s.mu.Unlock()
-	s.put(user.(*User))
+	s.put(unwrapUser(user))
 	return nil
 }
 
@@ -108,7 +117,7 @@ func (s *Store) Create(_ context.Context, user authboss.User) error {
 	}
 	s.mu.Lock()
 	defer s.mu.Unlock()
-	u := user.(*User)
+	u := unwrapUser(user)
 	if _, ok := s.users[u.PID]; ok {
 		return authboss.ErrUserFound
 	}
@@ -201,6 +210,6 @@ func (s *Store) SaveOAuth2(_ context.Context, user authboss.OAuth2User) error {
 	}
 	s.mu.Lock()
 	defer s.mu.Unlock()
-	s.put(user.(*User))
+	s.put(unwrapUser(user))
 	return nil
 }
